@@ -11,3 +11,6 @@ import Physt.Theorems.C13
 import Physt.Theorems.C14
 import Physt.Theorems.C18
 import Physt.Theorems.C19
+import Physt.Theorems.C02
+import Physt.Theorems.C09
+import Physt.Theorems.C12
